@@ -369,6 +369,58 @@ def roaffine_call():
     return out
 
 
+def roaffine_call_2d():
+    """realisations of a 2-D random variable (or of a 2-D block of it) held in arrays that are NOT C-contiguous -- a transposed view, a
+    Fortran-ordered copy: entry (i, j) of the realisation belongs to entry (i, j) of the variable whatever the memory layout"""
+    out = []
+    for given in ("block-transposed-view", "whole-fortran-order", "block-c-order", "column-strided-view"):
+        def setup(c, given=given):
+            m, x, y, X = new_ro()
+            Z = m.rvar((2, 3))
+            model = m.rc_model
+            raff = sym_affine(c, model, (2, 6), [x.first, y.first], "R")
+            aff = sym_affine(c, model, (2,), [x.first + 1], "a")
+            ra = lp.RoAffine(raff, aff, m.sup_model)
+            xbar = valuation(c, model, "sol")
+            model.solution = lp.Solution("oracle", 0.0, xbar, 0, 0.0)
+            from ..harness import arr
+            zfull = [0.0] * 6
+            if given == "whole-fortran-order":
+                W = np.asfortranarray(arr([c.fresh_real(f"w{k}") for k in range(6)]).reshape((2, 3)))
+                args = [Z.assign(W)]
+                for i in range(2):
+                    for j in range(3):
+                        zfull[3 * i + j] = W[i, j]
+            elif given == "column-strided-view":
+                big = arr([c.fresh_real(f"w{k}") for k in range(8)]).reshape((2, 4))
+                W = big[:, ::2]                        # a strided view of shape (2, 2)
+                args = [Z[:, 0:2].assign(W)]
+                for i in range(2):
+                    for j in range(2):
+                        zfull[3 * i + j] = W[i, j]
+            else:
+                V = arr([c.fresh_real(f"v{k}") for k in range(4)]).reshape((2, 2))
+                W = V.T if given == "block-transposed-view" else V.T.copy()
+                args = [Z[0:2, 1:3].assign(W)]
+                for i in range(2):
+                    for j in range(2):
+                        zfull[3 * i + j + 1] = W[i, j]
+            return {"ra": ra, "args": args, "zfull": zfull, "xbar": xbar}
+
+        def expected(ns):
+            R = views.val(ns["ra"].raffine, ns["xbar"])
+            a = views.val(ns["ra"].affine, ns["xbar"])
+            r = np.empty(2, dtype=object)
+            for i in range(2):
+                r[i] = sum((R[i, j] * ns["zfull"][j] for j in range(6)), 0.0)
+            return r + a
+        obs, _ = check_function("rsome.lp:RoAffine.__call__", setup, lambda ns: ns["ra"](*ns["args"]),
+                                [post("value-at-realisation", lambda ns, res: views.same_shape_eq(res, expected(ns)))],
+                                mode="D", label=f"2-D random variable,assigned={given}", bounded=True)
+        out += obs
+    return out
+
+
 # ------------------------------------------------------------------ DecRule.get
 
 def decrule_get():
@@ -466,7 +518,7 @@ def run_job(job):
     if k == "convex_call":
         return convex_call(job["xtype"])
     if k == "roaffine_call":
-        return roaffine_call()
+        return roaffine_call() + roaffine_call_2d()
     if k == "decrule_get":
         return decrule_get()
     if k == "dro_get":
